@@ -88,6 +88,58 @@ class Harness:
         return 'accept:%d' % len(want)
 
 
+class Structured(Harness):
+    """abstract depfile (entries with possibly repeated targets, 0-2 prerequisites each) rendered under symbolic
+    formatting; the reported prerequisites must be the listed ones, in order (abstract-side oracle)"""
+
+    SEPS = [b' ', b'  ', b' \\\n ', b'\\\n']
+
+    def __init__(self, I, nentries):
+        Harness.__init__(self, I, 0, None)
+        self.nentries = nentries
+
+    def run_path(self, I):
+        sep = self.SEPS[I.choose('sep', len(self.SEPS))]
+        colon_space = I.choose('space_before_colon', 2) == 1
+        final_nl = I.choose('final_newline', 2) == 1
+        text = []
+        want = []
+        for e in range(self.nentries):
+            t = [b't1', b't2'][I.choose('target%d' % e, 2)]
+            nd = I.choose('ndeps%d' % e, 3)
+            text += [IntV(8, c) for c in t]
+            if colon_space:
+                text.append(IntV(8, 32))
+            text.append(IntV(8, 58))
+            for k in range(nd):
+                text += [IntV(8, c) for c in sep]
+                b = I.fresh_int('d%d_%d' % (e, k), 8)
+                for c in (0, 10, 13, 32, 92, 58):
+                    I.solver.add(b.v != c)
+                dep = [IntV(8, ord('p')), b]
+                text += dep
+                want.append(dep)
+            if e + 1 < self.nentries or final_nl:
+                text.append(IntV(8, 10))
+            if e + 1 < self.nentries and I.choose('blank%d' % e, 2) == 1:
+                text.append(IntV(8, 10))
+        self.n = len(text)
+        self.bytes = text + [IntV(8, 0)]
+        r1 = I.call_fn(self.impl, [M.static_str(PATHNAME)])
+        if r1.variant != 'Ok':
+            I.fail('rejects-wellformed', 'well-formed structured depfile rejected: %r' % anyhow_text_partial(I, r1.fields[0]))
+        got = r1.fields[0].fields
+        if len(got) != len(want):
+            I.fail('deps-differ', 'n2 reports %d prerequisites, the depfile lists %d' % (len(got), len(want)))
+        for g, w in zip(got, want):
+            gb = g.fields[0].fields
+            if len(gb) != len(w):
+                I.fail('deps-differ', 'a reported prerequisite has another length than the one listed at that position')
+            for x, y in zip(gb, w):
+                I.oblige(I.binop('Eq', x, y), 'deps-differ', 'prerequisites are not reported in the order listed')
+        return 'accept:%d' % len(want)
+
+
 def anyhow_text_partial(I, e):
     """message bytes with symbolic bytes shown as '?'"""
     if isinstance(e, Opaque) and e.parts and isinstance(e.parts[0], Agg) and e.parts[0].kind == 'String':
@@ -150,6 +202,16 @@ def run(ctx, out):
                 out.add(Violation('M:depfile:' + key, '%s on input %r: %s' % (desc, bs, detail),
                                   replay={'cmd': 'depfile', 'bytes_hex': bs.hex(), 'native': ans}, reproduced=bad))
         samples += [{'harness': name, 'path_outcome': s} for s in ex.summaries[:3]]
+    # structured depfiles with repeated targets under symbolic formatting
+    for ne in ((2, 3) if ctx.quick() else (2, 3, 4)):
+        H = Structured(I, ne)
+        ex = M.explore(I, H, jobs=ctx.jobs, time_budget=budget, keep_all=True)
+        name = 'structured depfile: %d entries over 2 targets, 0-2 prerequisites each, symbolic formatting' % ne
+        merge_cov(cov, name, ex, {'outcomes': summarize(ex)})
+        finish_exploration(out, ex, name)
+        for key, lst in ex.failures.items():
+            for desc, model, extra in lst[:2]:
+                out.add(Violation('M:depfile:' + key, desc + ' (structured family)', replay={'model': model}, reproduced=model is not None))
     # missing depfile / unreadable depfile
     for mode, want in (('notfound', 'Ok'), ('ioerr', 'Err')):
         H = Harness(I, 0, None)
